@@ -693,3 +693,45 @@ def countdown_loops(path):
                     if ok:
                         out.append({'header': hdr, 'frame': frame, 'enter': k, 'count': b[2][f], 'local': local, 'field': f, 'kind': 'iteration'})
     return out
+
+
+def loop_invariants(paths):
+    """loop-carried locals that no iteration changes: {phi term: value before the loop}.  A local that is havoced at a
+    loop header only because its address is taken inside the loop, and that every path reaching the back edge carries
+    back unchanged, still holds what it held when the loop was entered."""
+    carried = {}
+    before = {}
+    for p in paths:
+        for e in p['events']:
+            if e['kind'] == 'loop-enter':
+                for local, v in e['before'].items():
+                    before[(e['header'], e['frame'], e.get('hv'), local)] = v
+            elif e['kind'] == 'loop-back':
+                for local, v in e['carried'].items():
+                    carried.setdefault((e['header'], e['frame'], local), []).append(v)
+    out = {}
+    for (hdr, frame, hv, local), b in before.items():
+        phi = ('phi', hdr, hv, local)
+        cs = carried.get((hdr, frame, local))
+        if cs and all(c == phi for c in cs):
+            out[phi] = b
+        elif cs and b[0] == 'agg' and all(c == phi or (c[0] == 'upd' and c[1] == phi) for c in cs):
+            # field-wise: a field of an aggregate local that no back edge updates
+            touched = set()
+            for c in cs:
+                if c[0] == 'upd':
+                    for path, _v in c[2]:
+                        touched.add(path[0] if path else None)
+            if None not in touched:
+                for i, v in enumerate(b[2]):
+                    if ('f', i) not in touched:
+                        out[('field', phi, i)] = v
+    return out
+
+
+def subst_invariants(t, inv):
+    if isinstance(t, tuple):
+        if t in inv:
+            return subst_invariants(inv[t], inv)
+        return tuple(subst_invariants(x, inv) for x in t)
+    return t
